@@ -1160,6 +1160,9 @@ ITP_SECTIONS = ['bonds', 'angles', 'dihedrals', 'constraints', 'pairs', 'exclusi
 def gen_itp(rng):
     lines, blocks = [], collections.OrderedDict()
     idx_table = dict(ITPDirector.atom_idxs)
+    meta = None          # (condition, tag) in force
+    if rng.random() < 0.2:
+        lines.append('#define FLEXIBLE')
     for b in range(rng.randint(1, 4)):
         name = rng.choice(['MOL%d' % b, 'MOL%d' % b, 'PROT'])
         lines += ['[ moleculetype ]', '%s %d' % (name, rng.randint(1, 3)), '[ atoms ]']
@@ -1174,6 +1177,17 @@ def gen_itp(rng):
             sect = rng.choice(ITP_SECTIONS)
             lines.append('[ %s ]' % sect)
             for _ in range(rng.randint(1, 3)):
+                k = rng.random()
+                if meta is None and k < 0.2:
+                    cond = rng.choice(['ifdef', 'ifndef'])
+                    meta = (cond, rng.choice(['FLEXIBLE', 'POSRES']))
+                    lines.append('#%s %s' % meta)
+                elif meta is not None and k < 0.25:
+                    meta = ({'ifdef': 'ifndef', 'ifndef': 'ifdef'}[meta[0]], meta[1])
+                    lines.append(rng.choice(['#else', '#else ; other branch']))
+                elif meta is not None and k < 0.55:
+                    meta = None
+                    lines.append('#endif')
                 idxs = idx_table[sect]
                 if sect == 'exclusions':
                     toks = [str(rng.randint(1, n)) for _ in range(rng.randint(1, 4))]
@@ -1187,9 +1201,21 @@ def gen_itp(rng):
                     params = [rng.choice(['1', '0.25', '1000']) for _ in range(rng.randint(0, 3))]
                     toks = atoms + params
                 lines.append(' '.join(toks))
-                inters.append([sect, [str(int(a) - 1) for a in atoms], params])
+                inters.append([sect, [str(int(a) - 1) for a in atoms], params, list(meta) if meta else []])
         blocks[name] = [name, [str(i) for i in range(n)], sorted(inters, key=lambda x: x[0])]
+    if meta is not None:
+        lines.append('#endif')
     return lines, list(blocks.values())
+
+
+def canon_inters_meta(idict):
+    out = []
+    for sect in sorted(idict):
+        for it in idict[sect]:
+            m = [[k, v] for k, v in it.meta.items()]
+            out.append([sect, [str(a) for a in it.atoms], [canon_param(p) for p in it.parameters],
+                        list(m[0]) if m else []])
+    return out
 
 
 def run_itp():
@@ -1208,8 +1234,16 @@ def run_itp():
             elif k < 0.6:
                 j = [q for q, t in enumerate(bad) if t.startswith('[ atoms ]')][0]
                 bad.insert(j + 2, bad[j + 1])
-            else:
+            elif k < 0.8:
                 bad += ['[ bonds ]', rng.choice(['0 1 1', '1 99 1', 'BB 1 1'])]
+            else:
+                # pragma faults: #endif without #ifdef, nested / unclosed #ifdef, #else alone, unknown pragma
+                clean = [t for t in bad if not t.startswith('#')]
+                pr = rng.choice([['#endif'], ['#ifdef A', '#ifdef B', '#endif', '#endif'], ['#ifdef A'], ['#else'],
+                                 ['#include "x.itp"'], ['#if A', '#endif'], ['#ifdef', '#endif'],
+                                 ['#ifdefX A', '#else', '#endif']])
+                j = rng.randint(0, len(clean))
+                bad = clean[:j] + pr[:1] + clean[j:] + pr[1:]
             cases.append(('itp-%d-fault' % i, bad, None))
     lines = [line('itp', ls) for _, ls, _ in cases]
     for (cid, ls, exp), ln, mo in zip(cases, lines, ask(lines)):
@@ -1217,7 +1251,7 @@ def run_itp():
         errs = []
         try:
             read_itp(ls, ff)
-            got = [[k, [str(n) for n in b.nodes], canon_inters(b.interactions)] for k, b in ff.blocks.items()]
+            got = [[k, [str(n) for n in b.nodes], canon_inters_meta(b.interactions)] for k, b in ff.blocks.items()]
             im = enc(got)
         except Exception as e:
             got, im = None, 'error'
